@@ -152,9 +152,9 @@ class Batch:
                 path = os.path.join(qdir, "q%03d-%s.smt2" % (i, solver))
                 res[solver] = solve_file(solver, self.decls, it["asserts"], it["values"] if it["expect"] == "unsat" else [],
                                          15 if it["expect"] == "info" else self.timeout_s, path)
-                if solver == self.ms.primary and it["expect"] == "unsat" and res[solver][0] in ("timeout", "unknown") and self.deltas:
+                if solver == self.ms.primary and res[solver][0] in ("timeout", "unknown") and self.deltas:
                     zero = ["(= %s 0.0)" % d for d in self.deltas]
-                    r2 = solve_file(solver, self.decls, it["asserts"] + zero, it["values"], min(60, self.timeout_s),
+                    r2 = solve_file(solver, self.decls, it["asserts"] + zero, it["values"] if it["expect"] == "unsat" else [], min(60, self.timeout_s),
                                     path.replace(".smt2", "-exact.smt2"))
                     if r2[0] == "sat":
                         res[solver] = (r2[0], r2[1], res[solver][2] + r2[2], r2[3])
@@ -208,6 +208,20 @@ class Batch:
         done = self.items
         self.items = []
         return done
+
+
+def refine_exact(ms, sem, decls, asserts, model, input_names, pin=(), timeout_s=60, path=None):
+    """second refinement strategy: restore the exact definition of every abstracted product, pin the given (integer)
+    inputs to the abstract model's values and let the solver find the real-valued inputs (a small nonlinear problem)"""
+    extra = []
+    for (pv, op, a, b) in sem.abstractions:
+        extra.append("(= %s (%s %s %s))" % (pv, "*" if op == "Mul" else "/", a, b))
+    for name in pin:
+        if name in model and model[name] is not None:
+            extra.append("(= %s %s)" % (name, smt.ilit(int(model[name])) if float(model[name]).is_integer() else smt.rat(model[name])))
+    v, m, dt, errs = solve_file(ms.primary, decls, list(asserts) + extra, list(input_names), timeout_s,
+                                path or os.path.join(ms.run.logdir, "refine-exact.smt2"))
+    return m if v == "sat" else None
 
 
 def refine(ms, sem, decls, asserts, model, input_names, timeout_s=120, path=None):
